@@ -136,6 +136,8 @@ class Run:
         self.exhaustive = True
         self.caps = []
         self.deadline = None
+        self.sub_lines = []       # VIOLATION / KNOWN-FINDING lines of hash-seed sub-runs
+        self.sub_rc = 0
 
     @property
     def quick(self):
@@ -238,7 +240,11 @@ class Run:
         tmp = os.path.join(VERIF, 'evidence', '.%s.%d.tmp' % (self.pid, os.getpid()))
         with open(tmp, 'w') as fh:
             json.dump(ev, fh, indent=1, sort_keys=True, default=repr)
-        os.replace(tmp, os.path.join(VERIF, 'evidence', self.pid + '.json'))
+        os.replace(tmp, os.environ.get('VERIF_EVIDENCE_OUT') or
+                   os.path.join(VERIF, 'evidence', self.pid + '.json'))
+        for ln in self.sub_lines:
+            print(ln)
+        rc = max(rc, self.sub_rc)
         for ln in lines:
             print(ln)
         print('%s tier=%s seed=%d states=%d transitions=%d traces=%d evaluations=%d '
@@ -249,6 +255,44 @@ class Run:
                  ev['wall_s'], rc))
         sys.stdout.flush()
         return rc
+
+
+def hash_seed_reruns(run, seeds):
+    """PYTHONHASHSEED is one more enumerated environment choice: repeat the whole enumeration of this
+    property in a fresh interpreter per extra hash seed and fold the verdicts in."""
+    import subprocess
+    import tempfile
+    if os.environ.get('VERIF_SUBRUN'):
+        return
+    out = {}
+    for h in seeds:
+        fd, evp = tempfile.mkstemp(prefix='verif-sub-', suffix='.json')
+        os.close(fd)
+        env = dict(os.environ, VERIF_HASHSEED=str(h), VERIF_SUBRUN='1', VERIF_EVIDENCE_OUT=evp,
+                   VERIF_SEED=str(run.seed))
+        r = subprocess.run([os.path.join(VERIF, 'check'), run.pid, '--tier', run.tier], env=env,
+                           capture_output=True, text=True)
+        try:
+            ev = json.load(open(evp))
+            out[str(h)] = {'rc': r.returncode, 'transitions': ev['coverage']['transitions'],
+                           'evaluations': ev['coverage']['evaluations'], 'states': ev['coverage']['states'],
+                           'wall_s': ev['wall_s']}
+            run.acc.trans += ev['coverage']['transitions']
+            run.acc.evals += ev['coverage']['evaluations']
+        except Exception as e:
+            out[str(h)] = {'rc': r.returncode, 'error': repr(e)}
+        finally:
+            try:
+                os.unlink(evp)
+            except OSError:
+                pass
+        for ln in r.stdout.splitlines():
+            if ln.startswith('VIOLATION') or ln.startswith('  sig=') or ln.startswith('HARNESS'):
+                run.sub_lines.append(ln + ('' if ln.startswith('  ') else ' [PYTHONHASHSEED=%s]' % h))
+        if r.returncode != 0:
+            run.sub_rc = max(run.sub_rc, r.returncode if r.returncode in (1, 2) else 2)
+    run.extra['hash_seed_runs'] = out
+    run.extra['hash_seeds'] = [os.environ.get('PYTHONHASHSEED', '0')] + [str(h) for h in seeds]
 
 
 def vacuity(run, required):
